@@ -121,21 +121,38 @@ def mcb_weight(n, edges):
 # ------------------------------------------------------------------ strategies
 @st.composite
 def graphs(draw):
-    n = draw(st.integers(2, 9))
-    pairs = [(u, v) for u in range(n) for v in range(u + 1, n)]
-    dens = draw(st.sampled_from([0.3, 0.5, 0.8]))
-    chosen = [p for p in pairs if draw(st.floats(0, 1)) < dens]
-    if not chosen:
-        chosen = [pairs[0]]
-    chosen = chosen[:20]
+    big = draw(st.integers(0, 6)) == 0
+    if big:   # 33..70 vertices, sparse: a cycle through all vertices in generated order plus a few chords (few simple cycles)
+        n = draw(st.integers(33, 70))
+        order = draw(st.permutations(list(range(n))))
+        chosen = [(order[i], order[(i + 1) % n]) for i in range(n)]
+        have = set((min(a, b), max(a, b)) for a, b in chosen)
+        for _ in range(draw(st.integers(0, 3))):
+            a = draw(st.integers(0, n - 1))
+            b = draw(st.integers(0, n - 1))
+            if a != b and (min(a, b), max(a, b)) not in have:
+                have.add((min(a, b), max(a, b)))
+                chosen.append((a, b))
+    else:
+        n = draw(st.integers(2, 9))
+        pairs = [(u, v) for u in range(n) for v in range(u + 1, n)]
+        dens = draw(st.sampled_from([0.3, 0.5, 0.8]))
+        chosen = [p for p in pairs if draw(st.floats(0, 1)) < dens]
+        if not chosen:
+            chosen = [pairs[0]]
+        chosen = chosen[:20]
     pal = draw(st.sampled_from([1, 3, 20]))
-    half = draw(st.integers(0, 3)) == 0   # weights k + 0.5: exact in binary, printed exactly with 6 significant digits
+    kind = draw(st.sampled_from(["int", "int", "int", "half", "tiny"]))
     edges = []
     for (u, v) in chosen:
         if draw(st.booleans()):
             u, v = v, u
         w = draw(st.integers(1, pal))
-        edges.append((u, v, w + 0.5 if half else w))
+        if kind == "half":
+            w = w + 0.5          # exact in binary, printed exactly with 6 significant digits
+        elif kind == "tiny":
+            w = w * 2.0 ** -22   # about 2.4e-7 per unit: sums far below 1, exactly summable, printed in scientific notation
+        edges.append((u, v, w))
     return n, edges
 
 
@@ -201,7 +218,7 @@ def exact_opts(draw):
     o = list(draw(st.sampled_from(ALGOS)))
     par = draw(st.booleans())
     o.append("--parallel=%s" % ("true" if par else "false"))
-    cores = draw(st.sampled_from([None, 0, 1, 2, 3, 4, 7]))
+    cores = draw(st.sampled_from([None, 0, 1, 2, 3, 4, 7, hw_threads(), hw_threads() + 3, 33]))
     if cores is not None:
         o.append("--cores=%d" % cores)
     if draw(st.booleans()):
@@ -260,8 +277,10 @@ class Env:
             futs = [ex.submit(self.launch, d, p, o, pr) for (d, _, o, pr), p in zip(plans, paths)]
             return [f.result() for f in futs]
 
-    def launch(self, demo, path, opts, procs=0):
+    def launch(self, demo, path, opts, procs=0, affinity=0):
         cmd = ([] if not procs else MPIRUN + [str(procs)]) + [self.bins[demo]] + list(opts) + [path]
+        if affinity and not procs:
+            cmd = ["taskset", "-c", "0-%d" % (affinity - 1)] + cmd
         self.launches += 1
         if not procs:
             return run(cmd)
@@ -324,11 +343,12 @@ def check_valid(env, demo, text, opts, procs, opt, k=None, res=None):
         wv = float(w)
     except ValueError:
         raise Violation(base + "weight-not-a-number", "printed weight %r" % w, case)
+    tol = 1e-5 * float(opt)   # the programs print 6 significant digits
     if k is None:
-        if wv != float(opt):
+        if abs(wv - float(opt)) > tol:
             raise Violation(base + "wrong-weight", "printed MCB weight %s, minimum cycle basis weighs %s" % (w, opt), case)
     else:
-        if not (float(opt) <= wv <= (2 * k - 1) * float(opt)):
+        if not (float(opt) - tol <= wv <= (2 * k - 1) * float(opt) + tol):
             raise Violation(base + "weight-outside-bounds", "printed weight %s not in [opt, (2k-1)*opt] = [%s, %s]" % (w, opt, (2 * k - 1) * opt), case)
     return w
 
@@ -429,14 +449,18 @@ def make_c20(env, stats):
         n, edges = draw(graphs())
         opts = draw(st.lists(exact_opts(), min_size=2, max_size=4))
         which = draw(st.sampled_from(["mcb-dimacs", "approx-mcb-dimacs"]))
-        return dict(n=n, edges=edges, opts=opts, demo=which)
+        # a third of the examples run with the process restricted to 1-3 CPUs (the machine's CPU count and TBB's default then differ)
+        aff = draw(st.sampled_from([0, 0, 1, 2, 3])) if hw_threads() >= 4 else 0
+        return dict(n=n, edges=edges, opts=opts, demo=which, affinity=aff)
 
     def prop(ex):
         text = dimacs_text(ex["n"], [(u, v, str(w)) for u, v, w in ex["edges"]])
         path = env.write(text)
         for o, par, cores in ex["opts"]:
             oo = o + (["--k=2"] if ex["demo"] == "approx-mcb-dimacs" else [])
-            rc, out, err, to, dt = env.launch(ex["demo"], path, oo)
+            rc, out, err, to, dt = env.launch(ex["demo"], path, oo, affinity=ex["affinity"])
+            if ex["affinity"]:
+                stats["classes"]["affinity-restricted"] = stats["classes"].get("affinity-restricted", 0) + 1
             stats["evaluations"] += 1
             if to or rc != 0:
                 raise Violation("C20/%s/demo-options/run-failed" % ex["demo"], "exit %s timeout=%s stderr=%r" % (rc, to, err[:200]), case_of(ex["demo"], text, oo, 0))
